@@ -38,6 +38,20 @@ def run(ctx: Ctx) -> None:
     ctx.undecided = []
     audit(ctx, "R15.1")
 
+    # memoising decorators keep results of one parse for the next (file contents, lookups): shared state in disguise
+    memo = ("lru_cache", "cache", "cached_property", "memoize", "memoized")
+    n_fn = 0
+    for m in repo.modules.values():
+        for x in ast.walk(m.tree):
+            if isinstance(x, (ast.FunctionDef, ast.AsyncFunctionDef)):
+                n_fn += 1
+                bad_d = [norm(d) for d in x.decorator_list if any(k in norm(d) for k in memo)]
+                if bad_d:
+                    ctx.ob("R15.1", f"{m.name}:{m.qualname_of(x)}.{x.name}|memoised with {bad_d[0]}", False,
+                           msg=f"{x.name} is memoised ({bad_d[0]}): what it computed for one parse (e.g. the contents of a file) is handed to later parses even though the input changed",
+                           node=x, mod=m)
+    ctx.ob("R15.1", "package|no memoising decorators", n_fn > 100, msg="function inventory vanished", node=None, nontrivial=False)
+
     # ---------------------------------------------------------------- R15.2
     ctx.rule("R15.2", "lexer prototype: built once under `is None`, only cloned, clone re-bound before use; Lexer.clone un-shares the rule tables", minimum=4)
     lex = repo.mod("lexer")
